@@ -153,6 +153,17 @@ def run_case(ctx, case):
         fc = polygon.fill_convexhull(apply_layout(b0, case["layout"], fill=1))
         if (b0 & ~np.asarray(fc).astype(bool)).any():
             return Result(False, True, {"why": "fill_convexhull is not a superset of the input"})
+        # "input image (interpreted as boolean)": the same mask for every dtype of the input, in the input's dtype
+        dt = case.get("dtype", "bool")
+        if dt != "bool":
+            ai = (b0.astype(np.dtype(dt)) * (3 if dt != "bool" else 1))
+            try:
+                fi = polygon.fill_convexhull(ai)
+            except Exception as e:
+                return Result(False, True, {"why": "fill_convexhull raised on a %s image" % dt, "exception": repr(e)[:200]})
+            if np.asarray(fi).shape != b0.shape or not np.array_equal(np.asarray(fi) != 0, np.asarray(fc).astype(bool)):
+                return Result(False, True, {"why": "fill_convexhull of a %s image is not the mask obtained for the same image as booleans" % dt,
+                                            "got": (np.asarray(fi) != 0).astype(int).tolist(), "want": np.asarray(fc).astype(int).tolist()})
     return Result(True, int(b0.sum()) >= 2, None, "%s/%s" % ("small" if H * W <= 49 else "big", "exhaustive" if case.get("all") else "random"))
 
 
